@@ -65,6 +65,68 @@ def k_parse_string_triple(t: str) -> bool:
   return r is not None and list(r) == ['the_string'] and r['the_string'] == body
 
 
+class _LiteralEvalContract(object):
+  """Stub for the environment function ast.literal_eval on the sub-domain used here: a
+  single-quoted Python literal whose body has no backslash, quote or line break denotes its
+  body (validated against the interpreter on every run by c10.validate_literal_eval)."""
+
+  @staticmethod
+  def literal_eval(s):
+    n = len(s)
+    body = s[1:n - 1]
+    assert s[0] == "'" and s[n - 1] == "'"
+    for ch in body:
+      assert ch != "'" and ch != chr(92) and ch != chr(10) and ch != chr(13)
+    return body
+
+
+def sq_literal_is_data(t, lo, hi):
+  # every character of the body lies in the code point class [lo, hi] and is not special
+  for ch in t:
+    o = ord(ch)
+    if o < lo or o > hi or ch == "'" or ch == chr(92) or o == 10 or o == 13 or 0xD800 <= o <= 0xDFFF:
+      return True
+  saved = parse.ast
+  parse.ast = _LiteralEvalContract
+  try:
+    r = parse.ParseString("'" + t + "'")
+  finally:
+    parse.ast = saved
+  return r is not None and list(r) == ['the_string'] and r['the_string'] == t
+
+
+def k_parse_string_sq_ascii(t: str) -> bool:
+  """
+  pre: 1 <= len(t) <= 3
+  post: _
+  """
+  return sq_literal_is_data(t, 0x20, 0x7f)
+
+
+def k_parse_string_sq_latin1(t: str) -> bool:
+  """
+  pre: 1 <= len(t) <= 2
+  post: _
+  """
+  return sq_literal_is_data(t, 0x80, 0xff)
+
+
+def k_parse_string_sq_bmp(t: str) -> bool:
+  """
+  pre: 1 <= len(t) <= 2
+  post: _
+  """
+  return sq_literal_is_data(t, 0x100, 0xffff)
+
+
+def k_parse_string_sq_astral(t: str) -> bool:
+  """
+  pre: len(t) == 1
+  post: _
+  """
+  return sq_literal_is_data(t, 0x10000, 0x10ffff)
+
+
 def k_parse_string_never_mixes(s: str) -> bool:
   """
   pre: len(s) <= 4
@@ -153,6 +215,7 @@ def k_function_args_verbatim(a: str, b: str) -> bool:
   return f1 and f2 and i1 and i2
 '''
 
-NAMES = ['k_parse_string_dq', 'k_parse_string_triple', 'k_parse_string_never_mixes', 'k_user_flag_overrides',
+NAMES = ['k_parse_string_dq', 'k_parse_string_triple', 'k_parse_string_sq_ascii', 'k_parse_string_sq_latin1',
+         'k_parse_string_sq_bmp', 'k_parse_string_sq_astral', 'k_parse_string_never_mixes', 'k_user_flag_overrides',
          'k_default_flag_kept', 'k_undefined_flag_rejected', 'k_flag_value_is_data', 'k_dollar_form_expanded',
          'k_function_args_verbatim']
